@@ -3,22 +3,6 @@ import LeptosModel.Proofs.Stream
     stream theorems quantify over. -/
 namespace Leptos.Stream
 
-/-! `viewOk`: views outside the known-finding classes: no `ErrorBoundary` (F-C07-2/3), no `Suspend` in the output of a
-    `Suspend` under a `Suspense` (F-C07-4) -/
-mutual
-def viewOk : Ctx → View → Bool
-  | _, .raw _ => true
-  | c, .seq vs => viewOkL c vs
-  | .top, .suspend _ v => viewOk .top v
-  | .direct, .suspend _ v => viewOk .nested v
-  | .nested, .suspend _ _ => false
-  | _, .suspense _ _ vs => viewOkL .direct vs
-  | _, .eb _ => false
-def viewOkL : Ctx → List View → Bool
-  | _, [] => true
-  | c, v :: vs => viewOk c v && viewOkL c vs
-end
-
 mutual
 def viewSize : View → Nat
   | .raw _ => 1
@@ -41,7 +25,7 @@ def oooWfOp : Op → Bool
   | .async _ _ => false
   | .fallback _ => false
   | .ooo _ _ _ _ => false
-  | .sub _ => false
+  | .sub body => oooWfOps body
   | .finish => false
 def oooWfOps : List Op → Bool
   | [] => true
@@ -65,64 +49,63 @@ theorem viewDocL_append (a b : List View) : viewDocL (a ++ b) = viewDocL a ++ vi
   | cons o os ih => simp [viewDocL, ih]
 
 theorem compile_inOrd : ∀ (n : Nat),
-    (∀ (c : Ctx) (v : View), viewSize v ≤ n → viewOk c v = true →
+    (∀ (c : Ctx) (v : View), viewSize v ≤ n →
       inOrdOps (compile false c v) = true ∧ docOps (compile false c v) = viewDoc v) ∧
-    (∀ (c : Ctx) (vs : List View), viewSizeL vs ≤ n → viewOkL c vs = true →
+    (∀ (c : Ctx) (vs : List View), viewSizeL vs ≤ n →
       inOrdOps (compileL false c vs) = true ∧ docOps (compileL false c vs) = viewDocL vs) := by
   intro n
   induction n with
   | zero =>
     refine ⟨?_, ?_⟩
     · intro c v h; cases v <;> simp [viewSize] at h
-    · intro c vs h _
+    · intro c vs h
       cases vs with
       | nil => simp [compileL, inOrdOps, docOps, viewDocL]
       | cons v vs => cases v <;> simp [viewSizeL, viewSize] at h
   | succ n ih =>
-    have hL : ∀ (c : Ctx) (vs : List View), viewSizeL vs ≤ n + 1 → viewOkL c vs = true →
-        (∀ (c : Ctx) (v : View), viewSize v ≤ n + 1 → viewOk c v = true →
+    have hL : ∀ (c : Ctx) (vs : List View), viewSizeL vs ≤ n + 1 →
+        (∀ (c : Ctx) (v : View), viewSize v ≤ n + 1 →
           inOrdOps (compile false c v) = true ∧ docOps (compile false c v) = viewDoc v) →
         inOrdOps (compileL false c vs) = true ∧ docOps (compileL false c vs) = viewDocL vs := by
       intro c vs
       induction vs with
-      | nil => intro _ _ _; simp [compileL, inOrdOps, docOps, viewDocL]
+      | nil => intro _ _; simp [compileL, inOrdOps, docOps, viewDocL]
       | cons v vs ihv =>
-        intro h hok hv
+        intro h hv
         simp only [viewSizeL] at h
-        simp only [viewOkL, Bool.and_eq_true] at hok
-        have h1 := hv c v (by omega) hok.1
-        have h2 := ihv (by omega) hok.2 hv
+        have h1 := hv c v (by omega)
+        have h2 := ihv (by omega) hv
         simp [compileL, inOrdOps_append, docOps_append, viewDocL, h1, h2]
-    have hV : ∀ (c : Ctx) (v : View), viewSize v ≤ n + 1 → viewOk c v = true →
+    have hV : ∀ (c : Ctx) (v : View), viewSize v ≤ n + 1 →
         inOrdOps (compile false c v) = true ∧ docOps (compile false c v) = viewDoc v := by
-      intro c v h hok
+      intro c v h
       cases v with
       | raw s => cases c <;> simp [compile, inOrdOps, inOrdOp, docOps, docOp, viewDoc]
       | seq vs =>
         simp only [viewSize] at h
-        have hok' : viewOkL c vs = true := by cases c <;> simpa [viewOk] using hok
-        have := ih.2 c vs (by omega) hok'
+        have := ih.2 c vs (by omega)
         cases c <;> simpa [compile, viewDoc] using this
       | suspend f v =>
         simp only [viewSize] at h
         cases c with
         | top =>
-          simp only [viewOk] at hok
-          have := ih.1 .top v (by omega) hok
+          have := ih.1 .top v (by omega)
           simp [compile, inOrdOps, inOrdOp, docOps, docOp, viewDoc, this]
         | direct =>
-          simp only [viewOk] at hok
-          have := ih.1 .nested v (by omega) hok
+          have := ih.1 .direct v (by omega)
           simpa [compile, viewDoc] using this
-        | nested => simp [viewOk] at hok
+        | nested =>
+          have := ih.1 .direct v (by omega)
+          simpa [compile, viewDoc] using this
       | suspense fb nonce vs =>
         simp only [viewSize] at h
-        have hok' : viewOkL .direct vs = true := by cases c <;> simpa [viewOk] using hok
-        have := ih.2 .direct vs (by omega) hok'
+        have := ih.2 .direct vs (by omega)
         cases c <;> simp [compile, inOrdOps, inOrdOp, docOps, docOp, viewDoc, this]
-      | eb vs => cases c <;> simp [viewOk] at hok
-    exact ⟨hV, fun c vs h hok => hL c vs h hok hV⟩
-
+      | eb vs =>
+        simp only [viewSize] at h
+        have := ih.2 c vs (by omega)
+        cases c <;> simp [compile, inOrdOps, inOrdOp, docOps, docOp, viewDoc, this]
+    exact ⟨hV, fun c vs h => hL c vs h hV⟩
 
 /-- the same shape as an inductive predicate (convenient for induction) -/
 inductive OooWf : List Op → Prop where
@@ -133,6 +116,7 @@ inductive OooWf : List Op → Prop where
       OooWf (Op.nextId :: Op.fallback s :: Op.ooo fut true body nonce :: os)
   | ite (fut : Fut) {t e os : List Op} : OooWf t → OooWf e → oooDocOps t = oooDocOps e → OooWf os →
       OooWf (Op.ite fut t e :: os)
+  | sub {body os : List Op} : OooWf body → OooWf os → OooWf (Op.sub body :: os)
 
 theorem OooWf_of_bool : ∀ (n : Nat) (ops : List Op), opsSize ops ≤ n → oooWfOps ops = true → OooWf ops := by
   intro n
@@ -174,7 +158,13 @@ theorem OooWf_of_bool : ∀ (n : Nat) (ops : List Op), opsSize ops ≤ n → ooo
         · intro s fut body nonce os' _ he; simp at he
       exact .nextId (ih (.ite fut t e :: os) (by simp only [opsSize, opSize]; omega) this)
     | .nextId :: .async _ _ :: os, h, hw => simp [oooWfOps, oooWfOp] at hw
-    | .nextId :: .sub _ :: os, h, hw => simp [oooWfOps, oooWfOp] at hw
+    | .nextId :: .sub body :: os, h, hw =>
+      simp only [opsSize, opSize] at h
+      have : oooWfOps (.sub body :: os) = true := by
+        rw [oooWfOps] at hw
+        · simpa [oooWfOp] using hw
+        · intro s fut body nonce os' _ he; simp at he
+      exact .nextId (ih (.sub body :: os) (by simp only [opsSize, opSize]; omega) this)
     | .nextId :: .ooo _ _ _ _ :: os, h, hw => simp [oooWfOps, oooWfOp] at hw
     | .nextId :: .fallback _ :: [], h, hw => simp [oooWfOps, oooWfOp] at hw
     | .nextId :: .fallback _ :: .sync _ :: os, h, hw => simp [oooWfOps, oooWfOp] at hw
@@ -191,7 +181,10 @@ theorem OooWf_of_bool : ∀ (n : Nat) (ops : List Op), opsSize ops ≤ n → ooo
     | .async _ _ :: os, h, hw => simp [oooWfOps, oooWfOp] at hw
     | .fallback _ :: os, h, hw => simp [oooWfOps, oooWfOp] at hw
     | .ooo _ _ _ _ :: os, h, hw => simp [oooWfOps, oooWfOp] at hw
-    | .sub _ :: os, h, hw => simp [oooWfOps, oooWfOp] at hw
+    | .sub body :: os, h, hw =>
+      simp only [oooWfOps, oooWfOp, Bool.and_eq_true] at hw
+      simp only [opsSize, opSize] at h
+      exact .sub (ih body (by omega) hw.1) (ih os (by omega) hw.2)
     | .finish :: os, h, hw => simp [oooWfOps, oooWfOp] at hw
     | .nextId :: .finish :: os, h, hw => simp [oooWfOps, oooWfOp] at hw
     | .nextId :: .fallback _ :: .finish :: os, h, hw => simp [oooWfOps, oooWfOp] at hw
@@ -203,6 +196,7 @@ theorem OooWf.append {a b : List Op} (ha : OooWf a) (hb : OooWf b) : OooWf (a ++
   | nextId _ ih => exact .nextId ih
   | triple s fut nonce hbody _ _ ih => exact .triple s fut nonce hbody ih
   | ite fut ht he hte _ _ _ ih => exact .ite fut ht he hte ih
+  | sub hbody _ _ ih => exact .sub hbody ih
 
 theorem oooDocOps_append {a : List Op} (ha : OooWf a) (b : List Op) : oooDocOps (a ++ b) = oooDocOps a ++ oooDocOps b := by
   induction ha with
@@ -211,71 +205,72 @@ theorem oooDocOps_append {a : List Op} (ha : OooWf a) (b : List Op) : oooDocOps 
   | nextId _ ih => simp [oooDocOps, oooDocOp, ih]
   | triple s fut nonce _ _ _ ih => simp [oooDocOps, oooDocOp, ih]
   | ite fut _ _ _ _ _ _ ih => simp [oooDocOps, oooDocOp, ih]
+  | sub _ _ _ ih => simp [oooDocOps, oooDocOp, ih]
 
 theorem compile_oooWf : ∀ (n : Nat),
-    (∀ (c : Ctx) (v : View), viewSize v ≤ n → viewOk c v = true →
+    (∀ (c : Ctx) (v : View), viewSize v ≤ n →
       OooWf (compile true c v) ∧ oooDocOps (compile true c v) = viewDoc v) ∧
-    (∀ (c : Ctx) (vs : List View), viewSizeL vs ≤ n → viewOkL c vs = true →
+    (∀ (c : Ctx) (vs : List View), viewSizeL vs ≤ n →
       OooWf (compileL true c vs) ∧ oooDocOps (compileL true c vs) = viewDocL vs) := by
   intro n
   induction n with
   | zero =>
     refine ⟨?_, ?_⟩
     · intro c v h; cases v <;> simp [viewSize] at h
-    · intro c vs h _
+    · intro c vs h
       cases vs with
       | nil => exact ⟨by simp [compileL]; exact .nil, by simp [compileL, oooDocOps, viewDocL]⟩
       | cons v vs => cases v <;> simp [viewSizeL, viewSize] at h
   | succ n ih =>
-    have hL : ∀ (c : Ctx) (vs : List View), viewSizeL vs ≤ n + 1 → viewOkL c vs = true →
-        (∀ (c : Ctx) (v : View), viewSize v ≤ n + 1 → viewOk c v = true →
+    have hL : ∀ (c : Ctx) (vs : List View), viewSizeL vs ≤ n + 1 →
+        (∀ (c : Ctx) (v : View), viewSize v ≤ n + 1 →
           OooWf (compile true c v) ∧ oooDocOps (compile true c v) = viewDoc v) →
         OooWf (compileL true c vs) ∧ oooDocOps (compileL true c vs) = viewDocL vs := by
       intro c vs
       induction vs with
-      | nil => intro _ _ _; exact ⟨by simp [compileL]; exact .nil, by simp [compileL, oooDocOps, viewDocL]⟩
+      | nil => intro _ _; exact ⟨by simp [compileL]; exact .nil, by simp [compileL, oooDocOps, viewDocL]⟩
       | cons v vs ihv =>
-        intro h hok hv
+        intro h hv
         simp only [viewSizeL] at h
-        simp only [viewOkL, Bool.and_eq_true] at hok
-        have h1 := hv c v (by omega) hok.1
-        have h2 := ihv (by omega) hok.2 hv
+        have h1 := hv c v (by omega)
+        have h2 := ihv (by omega) hv
         refine ⟨by simp only [compileL]; exact h1.1.append h2.1, ?_⟩
         simp [compileL, oooDocOps_append h1.1, viewDocL, h1.2, h2.2]
-    have hV : ∀ (c : Ctx) (v : View), viewSize v ≤ n + 1 → viewOk c v = true →
+    have hV : ∀ (c : Ctx) (v : View), viewSize v ≤ n + 1 →
         OooWf (compile true c v) ∧ oooDocOps (compile true c v) = viewDoc v := by
-      intro c v h hok
+      intro c v h
       cases v with
       | raw s => cases c <;> exact ⟨by simp only [compile]; exact .sync s .nil, by simp [compile, oooDocOps, oooDocOp, viewDoc]⟩
       | seq vs =>
         simp only [viewSize] at h
-        have hok' : viewOkL c vs = true := by cases c <;> simpa [viewOk] using hok
-        have := ih.2 c vs (by omega) hok'
+        have := ih.2 c vs (by omega)
         cases c <;> simpa [compile, viewDoc] using this
       | suspend f v =>
         simp only [viewSize] at h
         cases c with
         | top =>
-          simp only [viewOk] at hok
-          have := ih.1 .top v (by omega) hok
+          have := ih.1 .top v (by omega)
           refine ⟨?_, ?_⟩
           · simp only [compile, if_true]
             exact .ite _ this.1 (.triple _ _ _ this.1 .nil) (by simp [oooDocOps, oooDocOp]) .nil
           · simp [compile, oooDocOps, oooDocOp, viewDoc, this.2]
         | direct =>
-          simp only [viewOk] at hok
-          have := ih.1 .nested v (by omega) hok
+          have := ih.1 .direct v (by omega)
           simpa [compile, viewDoc] using this
-        | nested => simp [viewOk] at hok
+        | nested =>
+          have := ih.1 .direct v (by omega)
+          simpa [compile, viewDoc] using this
       | suspense fb nonce vs =>
         simp only [viewSize] at h
-        have hok' : viewOkL .direct vs = true := by cases c <;> simpa [viewOk] using hok
-        have := ih.2 .direct vs (by omega) hok'
+        have := ih.2 .direct vs (by omega)
         cases c <;> exact ⟨by simp only [compile, if_true]; exact .triple _ _ _ this.1 .nil,
           by simp [compile, oooDocOps, oooDocOp, viewDoc, this.2]⟩
-      | eb vs => cases c <;> simp [viewOk] at hok
-    exact ⟨hV, fun c vs h hok => hL c vs h hok hV⟩
-
+      | eb vs =>
+        simp only [viewSize] at h
+        have := ih.2 c vs (by omega)
+        cases c <;> exact ⟨by simp only [compile]; exact .sub this.1 .nil,
+          by simp [compile, oooDocOps, oooDocOp, viewDoc, this.2]⟩
+    exact ⟨hV, fun c vs h => hL c vs h hV⟩
 
 /-! ### marker ids (`next_id`, the `push(0)` of a sub-builder) -/
 
@@ -297,29 +292,40 @@ theorem bumpLast_snoc (pre : List Nat) (k : Nat) : Builder.bumpLast (pre ++ [k])
     | nil => rfl
     | cons b pre => simp only [List.cons_append] at ih ⊢; rw [Builder.bumpLast, ih]
 
-/-- the ids used in one builder: all of the form `pre ++ [j]`, `j` at most the current counter, pairwise distinct -/
-def IdsOk (pre : List Nat) (k : Nat) (b : Builder) : Prop :=
-  b.id = some (pre ++ [k]) ∧ (∀ i ∈ oooIds b.chunks, ∃ j, 1 ≤ j ∧ j ≤ k ∧ i = some (pre ++ [j])) ∧ (oooIds b.chunks).Nodup
+/-- the ids used in one builder: all of the form `pre ++ [j]` with `lo < j ≤` the current counter, pairwise distinct -/
+def IdsOk (pre : List Nat) (lo k : Nat) (b : Builder) : Prop :=
+  b.id = some (pre ++ [k]) ∧ (∀ i ∈ oooIds b.chunks, ∃ j, lo < j ∧ j ≤ k ∧ i = some (pre ++ [j])) ∧ (oooIds b.chunks).Nodup
 
-theorem exec_ids {ops : List Op} (h : OooWf ops) (env : Env) : ∀ (b : Builder) (pre : List Nat) (k : Nat),
-    IdsOk pre k b → ∃ k', k ≤ k' ∧ IdsOk pre k' (execOps env ops b) := by
+theorem oooIds_flushed (b : Builder) : oooIds b.flushed = oooIds b.chunks := by
+  unfold Builder.flushed; split
+  · rfl
+  · simp [oooIds_append, oooIds]
+
+theorem append_ids (b o : Builder) : oooIds (b.append o).chunks = oooIds b.chunks ++ oooIds o.chunks := by
+  unfold Builder.append; split <;> simp [oooIds_append, oooIds_flushed]
+
+theorem append_id (b o : Builder) (i : List Nat) (h : o.id = some i) : (b.append o).id = some i := by
+  unfold Builder.append; split <;> simp [h]
+
+theorem exec_ids {ops : List Op} (h : OooWf ops) (env : Env) : ∀ (b : Builder) (pre : List Nat) (lo k : Nat),
+    lo ≤ k → IdsOk pre lo k b → ∃ k', k ≤ k' ∧ IdsOk pre lo k' (execOps env ops b) := by
   induction h with
-  | nil => intro b pre k hb; exact ⟨k, Nat.le_refl _, hb⟩
+  | nil => intro b pre lo k _ hb; exact ⟨k, Nat.le_refl _, hb⟩
   | sync s _ ih =>
-    intro b pre k hb
+    intro b pre lo k hlo hb
     simp only [execOps, execOp]
-    exact ih _ pre k (by simpa [IdsOk, Builder.pushSync] using hb)
+    exact ih _ pre lo k hlo (by simpa [IdsOk, Builder.pushSync] using hb)
   | nextId _ ih =>
-    intro b pre k hb
+    intro b pre lo k hlo hb
     simp only [execOps, execOp]
-    obtain ⟨k', hk', h'⟩ := ih b.nextId pre (k + 1) (by
+    obtain ⟨k', hk', h'⟩ := ih b.nextId pre lo (k + 1) (by omega) (by
       refine ⟨by simp [Builder.nextId, hb.1, bumpLast_snoc], ?_, by simpa [Builder.nextId] using hb.2.2⟩
       intro i hi
       obtain ⟨j, hj1, hj, rfl⟩ := hb.2.1 i (by simpa [Builder.nextId] using hi)
       exact ⟨j, hj1, by omega, rfl⟩)
     exact ⟨k', by omega, h'⟩
   | triple s fut nonce _ _ _ ih =>
-    intro b pre k hb
+    intro b pre lo k hlo hb
     simp only [execOps, execOp]
     have hid : (b.nextId.pushFallback s).id = some (pre ++ [k + 1]) := by
       simp [Builder.pushFallback, (phi_writeMarker _ _).2, Builder.nextId, hb.1, bumpLast_snoc]
@@ -327,7 +333,7 @@ theorem exec_ids {ops : List Op} (h : OooWf ops) (env : Env) : ∀ (b : Builder)
       simp [Builder.pushFallback, (phi_writeMarker _ _).1, Builder.nextId]
     obtain ⟨k', hk', h'⟩ := ih ((b.nextId.pushFallback s).pushOoo
         { fut := fut, born := env.now, id := (b.nextId.pushFallback s).id, replace := true, body := _, nonce := nonce })
-      pre (k + 1) (by
+      pre lo (k + 1) (by omega) (by
         refine ⟨by simpa [Builder.pushOoo] using hid, ?_, ?_⟩
         · intro i hi
           simp only [Builder.pushOoo, hch, oooIds_append, oooIds, List.mem_append, List.mem_singleton] at hi
@@ -348,16 +354,40 @@ theorem exec_ids {ops : List Op} (h : OooWf ops) (env : Env) : ∀ (b : Builder)
           omega)
     exact ⟨k', by omega, h'⟩
   | ite fut _ _ _ _ iht ihe ihos =>
-    intro b pre k hb
+    intro b pre lo k hlo hb
     simp only [execOps, execOp]
     split
-    · obtain ⟨k1, hk1, h1⟩ := iht b pre k hb
-      obtain ⟨k2, hk2, h2⟩ := ihos _ pre k1 h1
+    · obtain ⟨k1, hk1, h1⟩ := iht b pre lo k hlo hb
+      obtain ⟨k2, hk2, h2⟩ := ihos _ pre lo k1 (by omega) h1
       exact ⟨k2, by omega, h2⟩
-    · obtain ⟨k1, hk1, h1⟩ := ihe b pre k hb
-      obtain ⟨k2, hk2, h2⟩ := ihos _ pre k1 h1
+    · obtain ⟨k1, hk1, h1⟩ := ihe b pre lo k hlo hb
+      obtain ⟨k2, hk2, h2⟩ := ihos _ pre lo k1 (by omega) h1
       exact ⟨k2, by omega, h2⟩
-
+  | sub _ _ ihb ihos =>
+    intro b pre lo k hlo hb
+    simp only [execOps, execOp]
+    -- the sub-builder continues the numbering; the repaired `append` takes its counter back (fix-c07-3)
+    obtain ⟨k1, hk1, h1⟩ := ihb (Builder.new b.id) pre k k (Nat.le_refl _)
+      ⟨by simp [Builder.new, hb.1], by simp [Builder.new, oooIds], by simp [Builder.new, oooIds]⟩
+    obtain ⟨k2, hk2, h2⟩ := ihos (b.append (execOps env _ (Builder.new b.id))) pre lo k1 (by omega) (by
+      refine ⟨append_id _ _ _ h1.1, ?_, ?_⟩
+      · intro i hi
+        rw [append_ids, List.mem_append] at hi
+        rcases hi with hi | hi
+        · obtain ⟨j, hj1, hj, rfl⟩ := hb.2.1 i hi
+          exact ⟨j, hj1, by omega, rfl⟩
+        · obtain ⟨j, hj1, hj, rfl⟩ := h1.2.1 i hi
+          exact ⟨j, by omega, hj, rfl⟩
+      · rw [append_ids, List.nodup_append]
+        refine ⟨hb.2.2, h1.2.2, ?_⟩
+        intro a ha a' ha'
+        obtain ⟨j, _, hj, rfl⟩ := hb.2.1 a ha
+        obtain ⟨j', hj1', _, rfl⟩ := h1.2.1 a' ha'
+        intro he
+        have := List.append_inj_right' (Option.some.inj he) rfl
+        simp at this
+        omega)
+    exact ⟨k2, by omega, h2⟩
 
 theorem oooIds_cons (c : Chunk) (l : List Chunk) : oooIds (c :: l) = oooIds [c] ++ oooIds l :=
   oooIds_append [c] l
@@ -384,7 +414,7 @@ theorem resolveOoo_ids (env : Env) (p : PendOoo) (I : List Nat) (hI : p.id = som
   refine ⟨by simp [Builder.new, hI, idStr], ?_⟩
   split
   · obtain ⟨k', _, h'⟩ := exec_ids hw env
-      ({ (Builder.new p.id) with id := (Builder.new p.id).id.map (· ++ [0]) } : Builder) I 0
+      ({ (Builder.new p.id) with id := (Builder.new p.id).id.map (· ++ [0]) } : Builder) I 0 0 (Nat.le_refl _)
       ⟨by simp [Builder.new, hI], by simp [Builder.new, oooIds], by simp [Builder.new, oooIds]⟩
     rw [oooIds_finish_take]
     refine ⟨?_, h'.2.2⟩
@@ -399,7 +429,7 @@ theorem startStream_ids (prog : List Op) (hw : OooWf prog) (done0 : List FId) :
     (oooIds (startStream true done0 prog).b.chunks).Nodup := by
   unfold startStream
   dsimp only
-  obtain ⟨k', _, h'⟩ := exec_ids hw { done := done0, now := 0 } (Builder.new (some [0])) [] 0
+  obtain ⟨k', _, h'⟩ := exec_ids hw { done := done0, now := 0 } (Builder.new (some [0])) [] 0 0 (Nat.le_refl _)
     ⟨by simp [Builder.new], by simp [Builder.new, oooIds], by simp [Builder.new, oooIds]⟩
   have hf : ∀ b : Builder, oooIds b.finish.chunks = oooIds b.chunks := by
     intro b; unfold Builder.finish; split
